@@ -91,6 +91,16 @@ def make_cases(chk, rng):
                 toks = " ".join(fs(A[min(i, j)][max(i, j)]) for i in range(n) for j in range(n))
                 cases.append({"name": f"d{n}_{up}_{int(zp)}", "lines": [f"ldl.dense {n} {up} {toks} {' '.join(fs(x) for x in b)}"],
                               "meta": {"kind": "dense", "n": n}})
+    # one factorisation object reused: compute(good); compute(zero pivot at k); compute(good) -- every call reports on its own matrix
+    for n in [2, 3, 5, 8, 33]:
+        for up in (0, 1):
+            full = [[True] * n for _ in range(n)]
+            good1, good2 = qd_values(rng, n, full), qd_values(rng, n, full)
+            bad = qd_values(rng, n, full, zero_pivot=True, zero_at=rng.randrange(n))
+            b = [F(rng.randint(-3, 3)) for _ in range(n)]
+            mats = " ".join(" ".join(fs(A[min(i, j)][max(i, j)]) for i in range(n) for j in range(n)) for A in (good1, bad, good2, bad))
+            cases.append({"name": f"dq{n}_{up}", "lines": [f"ldl.denseseq {n} {up} 4 {mats} {' '.join(fs(x) for x in b)}"],
+                          "meta": {"kind": "dense-reused-object", "n": n}})
     # multi-column right-hand sides through solve() and solveInPlace() (F19)
     for n in [1, 2, 3, 5, 8, 33]:
         for k in ([1, 2, 3, 4] if n <= 8 else [3]):
